@@ -398,10 +398,16 @@ def run (st : St) : List Op → St
   | [] => st
   | op :: ops => run (step st op).1 ops
 
-/-- a chain state before any factory activity: `bal`, `supply`, `dmeta` of the bank are arbitrary -/
-def St.genesis (bal : Addr → Denom → Nat) (supply : Denom → Nat) (dmeta : Denom → Option Nat) (fee : Nat) : St :=
-  { bal := bal, supply := supply, admin := fun _ => none, dmeta := dmeta, grant := fun _ _ => false,
+/-- a chain state before any factory activity: `bal`, `supply`, `dmeta` of the bank, the creation fee
+and the table `gr` of fee allowances that exist already are arbitrary; only the factory's own records
+(authority metadata, and the ghost fields) are empty -/
+def St.genesis (bal : Addr → Denom → Nat) (supply : Denom → Nat) (dmeta : Denom → Option Nat) (fee : Nat)
+    (gr : Addr → Addr → Bool) : St :=
+  { bal := bal, supply := supply, admin := fun _ => none, dmeta := dmeta, grant := gr,
     fee := fee, minted := fun _ => 0, burned := fun _ => 0, created := [] }
+
+/-- no fee allowance at all -/
+def noGrants : Addr → Addr → Bool := fun _ _ => false
 
 /-! ### vocabulary of the property statements -/
 
